@@ -36,7 +36,9 @@ EXPLANATION = (
     "short circuit such as `done = done or self._logout(..)`; R16.8 disable_user stores disabled=True only past the "
     "not-_is_last_admin edge, _is_last_admin consults the `disabled` flag (directly or through `admins`) and is "
     "`username in admins and len(admins) == 1` over the enabled admins, "
-    "and the account flags have no other writer. NOT decided: time-out tick counts over histories, behaviour of "
+    "and the account flags have no other writer; R16.9 (a) _login returns a session id only past the authenticated edge, (b) every "
+    "path through pre_timestep reaches the hand-over of inactive sessions to _timeout_session, (c) = C12's R12.5 applied here "
+    "(software, hence login, acts only while its node is ON). NOT decided: time-out tick counts over histories, behaviour of "
     "stale identifiers across service restarts and node reboots, that the terminal service on the target is running "
     "when a packet arrives (C13's receive-gate rule), and exceptions raised for unknown identifiers (C01/C05)."
 )
@@ -1220,6 +1222,55 @@ def r16_8(ctx: Ctx) -> None:
     ctx.floor("R16.8", "writers of the account flags", n_w, 4)
 
 
+def r16_9(ctx: Ctx) -> None:
+    """Three more necessary conditions found by the third seeding round:
+    (a) _login hands out a session id only past the authentication: every `return` of something other than None is dominated by the
+        truthy edge of authenticate_user's result (an early return of the existing local session on a name match alone lets a wrong
+        password in);
+    (b) the inactivity check is unconditional: every path through UserSessionManager.pre_timestep reaches the loop that hands
+        inactive sessions to _timeout_session (an early return while the service is paused lets sessions outlive their time-out);
+    (c) 'on a powered-on node': C12's rule that IOSoftware._can_perform_action refuses unless the node is ON (R12.5), applied here."""
+    ix = ctx.ix
+    ctx.rule("R16.9", "(a) _login returns a session id only past the authenticated edge; (b) pre_timestep always reaches the time-out "
+                      "hand-over; (c) = C12 R12.5 (software acts only while its node is ON)")
+    fn = ix.method("UserSessionManager._login")
+    g = CFG(fn.node)
+    ld = LocalDefs(fn.node)
+
+    def auth_edge(e: Edge) -> bool:
+        c = cond_of(e)
+        if c is None:
+            return False
+        return truthy_polarity(c[0], lambda x: isinstance(ld.expand(x), ast.Call) and call_name(ld.expand(x)) == "authenticate_user") == c[1]
+
+    rets = [n for n in g.nodes if n.kind == "stmt" and isinstance(n.ast, ast.Return) and n.ast.value is not None
+            and not (isinstance(n.ast.value, ast.Constant) and n.ast.value.value is None)]
+    if not rets:
+        raise AnalysisError("R16.9: _login has no return of a session id")
+    for r in rets:
+        p = g.path_avoiding([r], auth_edge)
+        ctx.record("R16.9", ctx.key(fn, f"`{unparse(r.ast)[:50]}` only for an authenticated user"), fn.loc(r.ast), p is None,
+                   "reached only past the truthy edge of authenticate_user(username, password)" if p is None else
+                   "a session id is returned on a path that never authenticated the caller: a login with a wrong password (or for a disabled "
+                   "account) succeeds", path_text(p))
+    pt = ix.method("UserSessionManager.pre_timestep")
+    gp = CFG(pt.node)
+    hand = [n for n in gp.nodes if any(call_name(c) == "_timeout_session" for c in node_calls(n))]
+    loops = [n for n in gp.nodes if n.kind == "for" and any(h for h in hand if n.ast in h.loops)]
+    if not hand or not loops:
+        raise AnalysisError("R16.9: the hand-over of inactive sessions to _timeout_session was not found in pre_timestep")
+    p = gp.path_avoiding([gp.exit], lambda e: False, blocked_nodes={n.id for n in loops})
+    ctx.record("R16.9", ctx.key(pt, "every tick examines the sessions for inactivity"), pt.loc(), p is None,
+               "every path through pre_timestep reaches the time-out hand-over loop" if p is None else
+               "pre_timestep can return before the inactivity check: while that condition lasts sessions never time out", path_text(p))
+    from . import c12
+    uni = set(ix.enum_members(ix.cls("NodeOperatingState")))
+    with ctx.borrowed({"R12.1": "R16.9", "R12.5": "R16.9"}):
+        flows = c12.r12_1(ctx, uni)
+        c12.r12_5(ctx, uni, flows)
+
+
+
 def check(ctx: Ctx) -> None:
     uni = set(ctx.ix.enum_members(ctx.ix.cls("ServiceOperatingState")))
     if "RUNNING" not in uni:
@@ -1232,6 +1283,7 @@ def check(ctx: Ctx) -> None:
     r16_6(ctx)
     r16_7(ctx)
     r16_8(ctx)
+    r16_9(ctx)
     ctx.note("not decided here: Terminal.receive has no running/_can_perform_action test of its own (C13 receive gates); "
              "remote_logout with an unknown id and a time-out of a remote session that has no terminal connection raise "
              "KeyError (totality, C01/C05)")
